@@ -292,12 +292,11 @@ func (br *Bridge) Push(packet []byte, fromID int) bool { //nolint:gocognit,cyclo
 			br.stack0 = append(br.stack0, data)
 			// fmt.Printf("stack0 size: %d\n", len(br.stack0)) // nolint
 			if br.reorderNWrites0 == 0 {
-				if err := inverse(br.stack0); err == nil {
-					// fmt.Printf("stack0 reordered!\n") // nolint
-					br.queue0to1 = append(br.queue0to1, br.stack0...)
-				} else {
+				if err := inverse(br.stack0); err != nil {
 					br.err = err
 				}
+				// fmt.Printf("stack0 reordered!\n") // nolint
+				br.queue0to1 = append(br.queue0to1, br.stack0...)
 			}
 		case br.filterCB0 != nil && !br.filterCB0(data):
 			// fmt.Printf("br: filtered out a packet of size %d (q0)\n", len(d)) // nolint
